@@ -22,6 +22,63 @@ func PlanFor(prop, tier string) (*Plan, error) {
 		p.Scenarios = moneyScenarios(tier)
 		p.Monitors = func() []Monitor { return []Monitor{NewC02()} }
 		p.Rule = "same exploration; every transition checks zero-sum, supply, deltas == emitted bank transfers, and the op's exact due (fee + reservation, settlement allocations/refunds/unsold/proceeds, instalments); non-trivial = distinct bids / modifications / settlements with a winner / instalment releases"
+	case "C03":
+		p.Scenarios = append(bookScenarios(tier), S2b(tier, 2, false))
+		p.Monitors = func() []Monitor { return []Monitor{NewC03()} }
+		p.Rule = "order-book enumeration: every book of <=N real PlaceBid calls (bidder x kind x price x amount, incl. a price level that turns small worth-bids into zero coins) under several cap/supply assignments, plus every book the modification scenario reaches; for each distinct book the MatchingInfo of the real CalculateBatchAllocation and, at the settlement block, the delivered coins are compared with the definition (linear scan over all recorded prices, exact rationals); non-trivial = distinct order books (digest of bids, caps, supply)"
+	case "C04":
+		p.Scenarios = append(bookScenarios(tier), S1b(tier, "3", true), S1b(tier, "0.5", false), S2b(tier, 2, false))
+		if !quick {
+			p.Scenarios = append(p.Scenarios, S1b(tier, "0.333333333333333333", true), S2b(tier, 0, true), S2a(tier, true))
+		}
+		p.Monitors = func() []Monitor { return []Monitor{NewC04()} }
+		p.Rule = "same enumeration; at every settlement each bidder's payment (reservation minus refund read off the bank transfers) is bounded by P*q <= paid < P*q + #matched bids and by the reservation, losers get everything back, P* never exceeds a matched bid's limit; every accepted fixed-price bid is checked against its rounding bound; non-trivial = distinct (P*, quantity, paid, matched bids, reserved) winner cases and distinct fixed bids"
+	case "C05":
+		p.Scenarios = append(bookScenarios(tier), S1b(tier, "3", true), S1b(tier, "0.5", false), S2b(tier, 2, false), S3(tier, false))
+		if !quick {
+			p.Scenarios = append(p.Scenarios, S1a(tier, true), S2a(tier, false))
+		}
+		p.Monitors = func() []Monitor { return []Monitor{NewC05()} }
+		p.Rule = "same enumeration; every accepted fixed-price bid is checked against the cap and remainder of the pre-state, every settlement against cap (as of settlement), request at the clearing price and offered amount; non-trivial = distinct (received, cap, price) cases"
+	case "C06":
+		p.Scenarios = []*Scenario{S1b(tier, "3", true), S1b(tier, "0.5", false), S1a(tier, true)}
+		if !quick {
+			p.Scenarios = append(p.Scenarios, S1b(tier, "0.333333333333333333", true), S1b(tier, "1", false), S1a(tier, false))
+		}
+		p.Monitors = func() []Monitor { return []Monitor{NewC06()} }
+		p.Rule = "every sequence of fixed-price bids (both denominations, allow-listed and outsider accounts, amounts that exactly exhaust / exceed the remainder or convert to zero) within the budget; each decision is compared in both directions with the reference predicate and the published remainder with offered minus accepted in every state; non-trivial = distinct (reason, bidder, denom, amount, price, remainder) decisions"
+	case "C08":
+		p.Scenarios = []*Scenario{S1a(tier, true), S2a(tier, false), S3(tier, false)}
+		for _, sc := range p.Scenarios {
+			sc.withRejectsTerminal()
+		}
+		p.Monitors = func() []Monitor { return []Monitor{NewC08(), NewC12()} }
+		p.Rule = "lifecycle scenarios with blocks before / exactly at / after every start, end, extended end and release instant (jumps and +1h ticks), bids / modifications / cancels attempted in every status; every auction's status and end times after every transition are compared with the reference step function; non-trivial = distinct (pre-state, step) pairs in which a lifecycle step happened"
+	case "C12":
+		p.Scenarios = []*Scenario{S1a(tier, true), S2a(tier, false), S3(tier, false)}
+		for _, sc := range p.Scenarios {
+			sc.withRejectsTerminal()
+		}
+		p.Monitors = func() []Monitor { return []Monitor{NewC12()} }
+		p.Rule = "cancel attempted by the auctioneer, another auctioneer and a bidder on every auction in every status at every instant relative to its start (including auctions created already open); decision compared with signer = auctioneer and status = waiting; effects checked on acceptance; non-trivial = distinct (signer class, status, position to start, state) decisions"
+	case "C09":
+		p.Scenarios = vestingScenarios(tier)
+		p.Monitors = func() []Monitor { return []Monitor{NewC09()} }
+		p.Rule = "schedules x proceeds x block patterns: fixed-price auction at price 1 so that one or two paying-denominated bids produce any proceeds in the grid; every subset of release instants hit exactly / skipped / overshot; the split at settlement is compared with floor(proceeds x weight) / remainder-to-last in exact rationals and every block with the instalments due and unreleased at its start; non-trivial = distinct (proceeds, weights) splits and distinct (state, due set, time) releases"
+	case "C11":
+		p.Scenarios = []*Scenario{S2b(tier, 2, false).withModRejects(), S2b(tier, 0, true).withModRejects()}
+		if !quick {
+			p.Scenarios = append(p.Scenarios, S2a(tier, true).withModRejects(), S3(tier, false).withModRejects())
+		}
+		p.Monitors = func() []Monitor { return []Monitor{NewC11()} }
+		p.Rule = "chains of modifications of every bid by owner, other bidder and outsider over the (price, amount) grid incl. lower / equal / higher in each coordinate, wrong denom, below the floor, unknown bid, in every auction status; decision compared in both directions with the reference predicate; on acceptance identity, monotonicity and charge = reservation increase; in every transition no bid disappears or shrinks; non-trivial = distinct decisions"
+	case "C13":
+		p.Scenarios = []*Scenario{S2b(tier, 2, false), S2c(tier, "0.25", 1), S2c(tier, "1", 2), S2c(tier, "0.5", 0)}
+		if !quick {
+			p.Scenarios = append(p.Scenarios, S2a(tier, false), S2b(tier, 1, true), S2c(tier, "0.5", 2), S2c(tier, "0.1", 1))
+		}
+		p.Monitors = func() []Monitor { return []Monitor{NewC13()} }
+		p.Rule = "order-book evolutions between end times (new bids, modifications, cap changes) for max rounds 0/1/2, several rates and periods; at every end-time block the decision is compared with the exact-rational rule, the appended end time with last + period, the recorded matched count with the reference count of the book; from every distinct state with an open batch auction a bounded continuation (one block per successive end time) must settle within the rounds left; non-trivial = distinct (rounds left, previous count, current count, decision, rate) cases"
 	case "C07":
 		p.Scenarios = []*Scenario{S3(tier, false), S1a(tier, true), S2a(tier, false)}
 		if !quick {
